@@ -53,6 +53,7 @@ Inductive pc :=
 | GLooked (k : bytes) (it : item) (size_only : bool)   (* read.looked_up *)
 | GOpen (k : bytes) (it : item)               (* cas.open_blob *)
 | GReread (k : bytes) (it : item)             (* read.lock_S after a NotFound *)
+| GOpenL (k : bytes) (it : item)              (* cas.open_blob, holding the state lock shared *)
 | OLockI (todo : list bytes) (del skip : N)   (* orphan.lock_I *)
 | ORead (h : bytes) (todo : list bytes) (del skip : N)       (* read.lock_S, holding I *)
 | OUnlink (h : bytes) (todo : list bytes) (del skip : N).    (* orphan.unlink, holding I *)
@@ -66,7 +67,8 @@ Record cstate := mkC {
   g_cas : smap bytes;            (* hash -> content of the file at its canonical path *)
   g_nextv : N;                   (* next_op_version *)
   g_I : option nat;              (* holder of pending_intents *)
-  g_S : option nat;              (* exclusive holder of the state lock; shared holders never span a step *)
+  g_S : option nat;              (* exclusive holder of the state lock *)
+  g_R : list nat;                (* shared holders that span a step: readers retrying under the lock *)
   g_thr : list (nat * tstate)
 }.
 
@@ -84,19 +86,19 @@ Section Conc.
     end.
 
   Definition free (l : option nat) : bool := match l with None => true | Some _ => false end.
+  Definition noreaders (g : cstate) : bool := match g_R g with [] => true | _ => false end.
   Definition protects (g : cstate) (h : bytes) : bool :=
     match sm_get lex_cmp (g_byhash g) h with Some _ => true | None => false end.
   Definition referenced (g : cstate) (h : bytes) : bool :=
     match rc_get (rc (g_idx g)) h with Some _ => true | None => false end.
   Definition seg_ofc (v : N) : N := (v - 1) / nops.
 
-  Definition upd (g : cstate) idx bk bh cas nv li ls thr := mkC idx bk bh cas nv li ls thr.
   Definition set_pc (g : cstate) (t : nat) (ts : tstate) (p : pc) : cstate :=
-    mkC (g_idx g) (g_bykey g) (g_byhash g) (g_cas g) (g_nextv g) (g_I g) (g_S g)
+    mkC (g_idx g) (g_bykey g) (g_byhash g) (g_cas g) (g_nextv g) (g_I g) (g_S g) (g_R g)
         (tset (g_thr g) t (mkT (t_calls ts) p (t_res ts))).
   (* the current call returns r: back to Idle *)
   Definition finish (g : cstate) (t : nat) (ts : tstate) (r : cres) : cstate :=
-    mkC (g_idx g) (g_bykey g) (g_byhash g) (g_cas g) (g_nextv g) (g_I g) (g_S g)
+    mkC (g_idx g) (g_bykey g) (g_byhash g) (g_cas g) (g_nextv g) (g_I g) (g_S g) (g_R g)
         (tset (g_thr g) t (mkT (t_calls ts) Idle (t_res ts ++ [r]))).
 
   Definition release_hash (bh : smap N) (h : bytes) : smap N :=
@@ -151,22 +153,22 @@ Section Conc.
         if free (g_I g) then
           let h := H c in
           Some (mkC (g_idx g) (sm_ins lex_cmp (g_bykey g) k h) (register_hash (g_byhash g) h)
-                    (g_cas g) (g_nextv g) (g_I g) (g_S g)
+                    (g_cas g) (g_nextv g) (g_I g) (g_S g) (g_R g)
                     (tset (g_thr g) t (mkT (t_calls ts) (PRen k c) (t_res ts))))
         else None
       | PRen k c =>
         let h := H c in
         Some (mkC (g_idx g) (g_bykey g) (g_byhash g) (sm_ins lex_cmp (g_cas g) h c) (g_nextv g)
-                  (g_I g) (g_S g)
+                  (g_I g) (g_S g) (g_R g)
                   (tset (g_thr g) t (mkT (t_calls ts) (WLockI (WPut k h (len c))) (t_res ts))))
       | WLockI w =>
         if free (g_I g) then
-          Some (mkC (g_idx g) (g_bykey g) (g_byhash g) (g_cas g) (g_nextv g) (Some t) (g_S g)
+          Some (mkC (g_idx g) (g_bykey g) (g_byhash g) (g_cas g) (g_nextv g) (Some t) (g_S g) (g_R g)
                     (tset (g_thr g) t (mkT (t_calls ts) (WLockS w) (t_res ts))))
         else None
       | WLockS w =>
-        if free (g_S g) then
-          Some (mkC (g_idx g) (g_bykey g) (g_byhash g) (g_cas g) (g_nextv g) (g_I g) (Some t)
+        if free (g_S g) && noreaders g then
+          Some (mkC (g_idx g) (g_bykey g) (g_byhash g) (g_cas g) (g_nextv g) (g_I g) (Some t) (g_R g)
                     (tset (g_thr g) t (mkT (t_calls ts) (WLockW w) (t_res ts))))
         else None
       | WLockW w =>
@@ -177,7 +179,7 @@ Section Conc.
         match apply_op cmp (g_idx g) (wop w) with
         | Err _ => None                                   (* a panic: proved unreachable *)
         | Ok (idx', un) =>
-          Some (mkC idx' (g_bykey g) (g_byhash g) (g_cas g) (ver + 1) (g_I g) None
+          Some (mkC idx' (g_bykey g) (g_byhash g) (g_cas g) (ver + 1) (g_I g) None (g_R g)
                     (tset (g_thr g) t (mkT (t_calls ts) (WApplied w un rolled) (t_res ts))))
         end
       | WApplied w un rolled =>
@@ -192,9 +194,9 @@ Section Conc.
           end in
         let un' := filter (fun h => match sm_get lex_cmp bh h with Some _ => false | None => true end) un in
         match un' with
-        | [] => Some (mkC (g_idx g) bk bh (g_cas g) (g_nextv g) None (g_S g)
+        | [] => Some (mkC (g_idx g) bk bh (g_cas g) (g_nextv g) None (g_S g) (g_R g)
                           (tset (g_thr g) t (mkT (t_calls ts) (WReleased w rolled) (t_res ts))))
-        | _ => Some (mkC (g_idx g) bk bh (g_cas g) (g_nextv g) (g_I g) (g_S g)
+        | _ => Some (mkC (g_idx g) bk bh (g_cas g) (g_nextv g) (g_I g) (g_S g) (g_R g)
                          (tset (g_thr g) t (mkT (t_calls ts) (WUnlink w un' rolled) (t_res ts))))
         end
       | WUnlink w todo rolled =>
@@ -203,9 +205,9 @@ Section Conc.
         | h :: rest =>
           let cas' := sm_del lex_cmp (g_cas g) h in
           match rest with
-          | [] => Some (mkC (g_idx g) (g_bykey g) (g_byhash g) cas' (g_nextv g) None (g_S g)
+          | [] => Some (mkC (g_idx g) (g_bykey g) (g_byhash g) cas' (g_nextv g) None (g_S g) (g_R g)
                             (tset (g_thr g) t (mkT (t_calls ts) (WReleased w rolled) (t_res ts))))
-          | _ => Some (mkC (g_idx g) (g_bykey g) (g_byhash g) cas' (g_nextv g) (g_I g) (g_S g)
+          | _ => Some (mkC (g_idx g) (g_bykey g) (g_byhash g) cas' (g_nextv g) (g_I g) (g_S g) (g_R g)
                            (tset (g_thr g) t (mkT (t_calls ts) (WUnlink w rest rolled) (t_res ts))))
           end
         end
@@ -213,13 +215,13 @@ Section Conc.
         if rolled then Some (set_pc g t ts (WCkS (wres w) (match w with WPut _ _ _ => 1 | WRm _ _ => 2 end)))
         else Some (finish g t ts (wres w))
       | WCkS r e =>
-        if free (g_S g) then
-          Some (mkC (g_idx g) (g_bykey g) (g_byhash g) (g_cas g) (g_nextv g) (g_I g) (Some t)
+        if free (g_S g) && noreaders g then
+          Some (mkC (g_idx g) (g_bykey g) (g_byhash g) (g_cas g) (g_nextv g) (g_I g) (Some t) (g_R g)
                     (tset (g_thr g) t (mkT (t_calls ts) (WCkW r e) (t_res ts))))
         else None
       | WCkW r e =>
         (* acquire W, write the snapshot, prune, release W and S *)
-        Some (finish (mkC (g_idx g) (g_bykey g) (g_byhash g) (g_cas g) (g_nextv g) (g_I g) None (g_thr g)) t ts r)
+        Some (finish (mkC (g_idx g) (g_bykey g) (g_byhash g) (g_cas g) (g_nextv g) (g_I g) None (g_R g) (g_thr g)) t ts r)
       | RRead k =>
         if free (g_S g) then
           match sm_get cmp (km (g_idx g)) k with
@@ -251,28 +253,35 @@ Section Conc.
         | None => Some (set_pc g t ts (GReread k it))
         end
       | GReread k it =>
+        (* the retry: look the key up again and open its blob while holding the read lock *)
         if free (g_S g) then
           match sm_get cmp (km (g_idx g)) k with
           | None => Some (finish g t ts (CBytes None))
           | Some cur =>
-            if beqb (ihash cur) (ihash it) && (isize cur =? isize it)
-            then Some (finish g t ts CMissing)
-            else Some (set_pc g t ts (GOpen k cur))
+            Some (mkC (g_idx g) (g_bykey g) (g_byhash g) (g_cas g) (g_nextv g) (g_I g) (g_S g) (t :: g_R g)
+                      (tset (g_thr g) t (mkT (t_calls ts) (GOpenL k cur) (t_res ts))))
           end
         else None
+      | GOpenL k it =>
+        let g' := mkC (g_idx g) (g_bykey g) (g_byhash g) (g_cas g) (g_nextv g) (g_I g) (g_S g)
+                      (filter (fun u => negb (Nat.eqb u t)) (g_R g)) (g_thr g) in
+        match sm_get lex_cmp (g_cas g) (ihash it) with
+        | Some c => Some (finish g' t ts (CBytes (Some c)))
+        | None => Some (finish g' t ts CMissing)
+        end
       | OLockI todo d s =>
         match todo with
         | [] => Some (finish g t ts (COrphans d s))
         | h :: rest =>
           if free (g_I g) then
-            Some (mkC (g_idx g) (g_bykey g) (g_byhash g) (g_cas g) (g_nextv g) (Some t) (g_S g)
+            Some (mkC (g_idx g) (g_bykey g) (g_byhash g) (g_cas g) (g_nextv g) (Some t) (g_S g) (g_R g)
                       (tset (g_thr g) t (mkT (t_calls ts) (ORead h rest d s) (t_res ts))))
           else None
         end
       | ORead h rest d s =>
         if free (g_S g) then
           if referenced g h || protects g h then
-            let g' := mkC (g_idx g) (g_bykey g) (g_byhash g) (g_cas g) (g_nextv g) None (g_S g) (g_thr g) in
+            let g' := mkC (g_idx g) (g_bykey g) (g_byhash g) (g_cas g) (g_nextv g) None (g_S g) (g_R g) (g_thr g) in
             match rest with
             | [] => Some (finish g' t ts (COrphans d (s + 1)))
             | _ => Some (set_pc g' t ts (OLockI rest d (s + 1)))
@@ -285,7 +294,7 @@ Section Conc.
           | Some _ => (sm_del lex_cmp (g_cas g) h, d + 1, s)
           | None => (g_cas g, d, s + 1)
           end in
-        let g' := mkC (g_idx g) (g_bykey g) (g_byhash g) cas' (g_nextv g) None (g_S g) (g_thr g) in
+        let g' := mkC (g_idx g) (g_bykey g) (g_byhash g) cas' (g_nextv g) None (g_S g) (g_R g) (g_thr g) in
         match rest with
         | [] => Some (finish g' t ts (COrphans d' s'))
         | _ => Some (set_pc g' t ts (OLockI rest d' s'))
@@ -300,7 +309,7 @@ Section Conc.
     end.
 
   Definition init_c (thr : list (nat * list ccall)) (cas0 : smap bytes) : cstate :=
-    mkC empty_istate [] [] cas0 1 None None (map (fun p => (fst p, mkT (snd p) Idle [])) thr).
+    mkC empty_istate [] [] cas0 1 None None [] (map (fun p => (fst p, mkT (snd p) Idle [])) thr).
 
   Definition finished_t (ts : tstate) : bool :=
     match t_pc ts, t_calls ts with Idle, [] => true | _, _ => false end.
